@@ -5,12 +5,11 @@
  *     symbolic length into a uint16_t array copies wrong contents (DESIGN
  *     section 9, probe P6b); every register area is such an array.  The
  *     models are plain loops (unwound by --unwindset memcpy.0:N,memset.0:N,
- *     N = octets of the largest copy of the target's table dimension).
+ *     N = words of the largest copy of the target's table dimension + 1).
  *     Assumption about libc, listed in the evidence.
- *  2. the stubs standing for function-pointer dependencies of the table:
- *     the per-register validator callback (any verdict, fixed per register
- *     for the duration of one call) and the iteration callback (any return
- *     value per call; logs the handles it is given).
+ *  2. the stub standing for the iteration callback of register_foreach_in
+ *     (any return value per call; logs the handles it is given).  The
+ *     validator callback stub is st_validator of stubs/register_callbacks.h.
  */
 #ifndef STUBS_REGISTER_AREA_CALLBACKS_H
 #define STUBS_REGISTER_AREA_CALLBACKS_H
@@ -18,39 +17,41 @@
 #include <ufw/register-table.h>
 
 #if !VERIF_IS_NATIVE
+/* Copies whose length is a whole number of 16-bit words (every copy the
+ * register code makes) are done word by word -- the same octets, but the
+ * verifier is spared the octet-wise updates of uint16_t arrays; anything else
+ * octet by octet. */
 void *memcpy(void *dst, const void *src, size_t n)
 {
-  unsigned char *d = dst;
-  const unsigned char *s = src;
-  for (size_t i = 0; i < n; i++)
-    d[i] = s[i];
+  if ((n & 1u) == 0) {
+    uint16_t *d = dst;
+    const uint16_t *s = src;
+    for (size_t i = 0; i < n / 2u; i++)
+      d[i] = s[i];
+  } else {
+    unsigned char *d = dst;
+    const unsigned char *s = src;
+    for (size_t i = 0; i < n; i++)
+      d[i] = s[i];
+  }
   return dst;
 }
 
 void *memset(void *dst, int c, size_t n)
 {
-  unsigned char *d = dst;
-  for (size_t i = 0; i < n; i++)
-    d[i] = (unsigned char)c;
+  if ((n & 1u) == 0) {
+    uint16_t *d = dst;
+    const uint16_t v = (uint16_t)((unsigned char)c * 0x0101u);
+    for (size_t i = 0; i < n / 2u; i++)
+      d[i] = v;
+  } else {
+    unsigned char *d = dst;
+    for (size_t i = 0; i < n; i++)
+      d[i] = (unsigned char)c;
+  }
   return dst;
 }
 #endif
-
-/* upper bound of the table dimension of any bounded target (array sizes of
- * the stub state; the targets' own bounds RB_NA / RB_NE are smaller) */
-#define RB_STUB_NE 8
-
-/* validator callback: the verdict about register j is st_cb_verdict[j] */
-const RegisterEntry *g_rb_entries;
-bool st_cb_verdict[RB_STUB_NE];
-
-static bool rb_stub_validator(const RegisterEntry *e, RegisterValue v)
-{
-  (void)v;
-  size_t j = (size_t)(e - g_rb_entries);
-  CHECK(j < RB_STUB_NE, "validator callback is handed an entry of the table");
-  return j < RB_STUB_NE ? st_cb_verdict[j] : false;
-}
 
 /* iteration callback: returns st_it_rc[k] on its k-th call and logs */
 #define RB_STUB_CALLS 8
